@@ -37,6 +37,9 @@ PROP = {
             # delivery while the closing handshake is under way (our Close is out, the peer still sends) and with writes in flight
             # (a read requested while a flush is in flight must start once it completes): components of C08 and C17
             RUN_WSSTREAM_SMALL, RUN_WSCONC_SMALL],
+        # messages of 1..4 MiB under a raised maximum, sharing transport segments with small ones (Go-only oracle: the traced scripts
+        # print every payload and stop at 512 KiB)
+        "direct": [{"component": "wsmsg"}],
         "keys": ["wsmsg.*", "wshandshake.bytes-after-blank-line", "wsstream.delivery", "wsstream.violation-not-reported", "wsstream.read-after-close",
                  "wsstream.state", "wsconc.read-result-differs-from-peer-stream", "wsconc.callback-never-invoked", "wsconc.callback-twice"],
         "rule": "scripts = a session of a conforming server at message level (0-6 text/binary messages; payload sizes 0, 1, 125, 126, 127, "
